@@ -59,7 +59,10 @@ class Chooser:
         if k == 'add_input':
             return {'a': 'add_gate', 'l': pick(labels) if bad and labels else self.new_label(), 't': 'INPUT', 'ops': []}
         if k == 'add_inputs':
-            return {'a': 'add_inputs', 'q': [self.new_label() for _ in range(rng.randint(1, 3))] + ([pick(labels)] if bad and labels else [])}
+            q = [self.new_label() for _ in range(rng.randint(1, 3))]
+            if bad:     # a label that exists already, or one label twice within the call
+                q = q + ([pick(labels)] if labels and rng.random() < 0.5 else [q[0]])
+            return {'a': 'add_inputs', 'q': q}
         if k == 'add_gate':
             t = rng.choice(TYPES)
             n = 0 if t in gen.NULLARY else 1 if t in gen.UNARY else 2 if t in gen.BINARY else rng.choice([2, 2, 3, 4])
